@@ -223,7 +223,10 @@ func CheckC06(e *Env) (int, error) {
 	thorough := e.Tier == "thorough"
 	var jobs []c06Job
 	sd := func(name string, i int) uint64 { return plan.Derive(e.Seed, "C06/"+name, uint64(i)) }
-	for _, k := range []string{"faults", "boundary", "structured", "stalls", "panics"} {
+	for i := uint64(0); i < 480; i++ { // (16+20+24+28+32) failure points x 2 panic values x 2 fragmentations, one process each
+		jobs = append(jobs, c06Job{Kind: "panics", Lo: i, Hi: i + 1, Seed: sd("panics", 0), part: true})
+	}
+	for _, k := range []string{"faults", "boundary", "structured", "stalls"} {
 		jobs = append(jobs, c06Job{Kind: k, Seed: sd(k, 0), Keep: 2, part: true})
 	}
 	addComps := func(n int) {
